@@ -139,6 +139,10 @@ func (k Keeper) Open(ctx sdk.Context, msg *types.MsgOpen) (*types.MsgOpenRespons
 		}
 	}
 
+	if err = k.CheckHealthAfterOpen(ctx, creator, mtp.Id, baseCurrency); err != nil {
+		return nil, err
+	}
+
 	return &types.MsgOpenResponse{
 		Id: mtp.Id,
 	}, nil
